@@ -4,6 +4,6 @@ import "verif/harness/props/c02"
 
 func init() {
 	registry["C02"] = entry{run: c02.Run, level: "exploration",
-		rule: "cases = operation histories (subscribe/re-subscribe/unsubscribe/unsubscribe-all) on subscription.Store: all histories up to the tier's length over a tiny universe (2 clients x 6 filters, exhaustive) plus seeded random histories over ~600 filters; after every operation every lookup kind (incl. exact-filter lookups with strings nobody subscribed to, such as "$share/g") is compared with a reference table + MQTT 4.7 matcher; plus all valid (name,filter) pairs for TopicMatch. A case is non-trivial if the model table is non-empty at some point; distinct by operation sequence. Plus rounds of 8 concurrent read-only lookups on an unmodified store, each compared with the lone result.",
+		rule: "cases = operation histories (subscribe/re-subscribe/unsubscribe/unsubscribe-all) on subscription.Store: all histories up to the tier's length over a tiny universe (2 clients x 6 filters, exhaustive) plus seeded random histories over ~600 filters; after every operation every lookup kind (incl. exact-filter lookups with strings nobody subscribed to, such as $share/g) is compared with a reference table + MQTT 4.7 matcher; plus all valid (name,filter) pairs for TopicMatch. A case is non-trivial if the model table is non-empty at some point; distinct by operation sequence. Plus rounds of 8 concurrent read-only lookups on an unmodified store, each compared with the lone result.",
 		assumptions: []string{"reference matcher refmodel.Match implements MQTT 4.7", "store used through its public API from one goroutine (concurrency is C15)"}}
 }
